@@ -41,6 +41,7 @@ class NonThreadedExecutor:
         self.refstack = deque()
         self.errorstack = None
         self.rolledback = deque()
+        self.rolledback_exc = None
         self.callstack = CallStack(self, maxdepth)
         self.is_executing = False
         self.is_formula_error_used = True
@@ -88,6 +89,8 @@ class NonThreadedExecutor:
 
         self.excinfo = None
         self.errorstack = None
+        self.rolledback.clear()
+        self.rolledback_exc = None
         self.is_executing = True
 
         try:
@@ -298,6 +301,11 @@ class CallStack(deque):
     def rollback(self):
         node = deque.pop(self)
         self.idxstack.pop()
+        exc = sys.exc_info()[1]
+        if exc is not self.executor.rolledback_exc:
+            # Nodes left by an error that a formula caught and handled
+            self.executor.rolledback.clear()
+            self.executor.rolledback_exc = exc
         self.executor.rolledback.append(node)
         self.counter -= 1
         cells = node[OBJ]
